@@ -139,6 +139,23 @@ pub fn c12(ctx: &Ctx) -> PropResult {
     for src in ["DISPLAY(1)\n\\\n", "DISPLAY(1) \\\n\n\n", "  \n\tDISPLAY(2)  \n  ", "DISPLAY(3)\r", "\n\n\nDISPLAY(4)", "DISPLAY(\"trailing blanks in a string   \")   ", "x <- \"unterminated at the very end  ", "DISPLAY(5) \\"] {
         all_programs.push(("bytes", src.to_string()));
     }
+    // counts around 8- and 16-bit limits: diagnostics (the exit status must not depend on their number), statements
+    for n in [255usize, 256, 257, 512, 65_536] {
+        if n > 600 && ctx.quick() {
+            continue;
+        }
+        all_programs.push(("count", "@".repeat(n) + "\n"));
+        all_programs.push(("count", "IF )\n".repeat(n)));
+    }
+    for n in [255usize, 256, 257, 300] {
+        let mut p = String::new();
+        for i in 0..n {
+            p.push_str(&format!("x{i} <- {i}\n"));
+        }
+        p.push_str("DISPLAY(\"all statements ran\")\nDISPLAY(x254)\n");
+        all_programs.push(("count", p));
+        all_programs.push(("count", "DISPLAY_NOLN(\"o\")\n".repeat(n) + "DISPLAY(\"end\")\n"));
+    }
     // sources larger than typical buffer sizes (64 KiB, 1 MiB), the payload after the padding
     for size in [65_536usize + 7, 1_048_576 + 13] {
         let pad = format!("// {}\n", "p".repeat(size));
@@ -168,9 +185,12 @@ pub fn c12(ctx: &Ctx) -> PropResult {
                     if *class == "random" && !(debug == "none" || rng.chance(1, 6)) {
                         continue;
                     }
-                    for stdin in ["", "line one\nline two\n"] {
-                        if *class != "input" && !stdin.is_empty() {
+                    for stdin in ["", "line one\nline two\n", "\u{1}closed"] {
+                        if *class != "input" && !stdin.is_empty() && !(stdin == "\u{1}closed" && *class == "ok" && debug == "none") {
                             continue;
+                        }
+                        if stdin == "\u{1}closed" && mode == "stdin" {
+                            continue; // the program itself comes from standard input
                         }
                         if mode == "stdin" && *class == "input" {
                             continue; // the program itself is read from standard input
@@ -183,6 +203,9 @@ pub fn c12(ctx: &Ctx) -> PropResult {
                         if *class == "big" && (mode == "eval" && src.len() > 100_000 || debug != "none") {
                             continue;
                         }
+                        if *class == "count" && mode == "eval" && src.len() > 100_000 {
+                            continue;
+                        }
                         cases.push(CliCase { src: src.clone(), class, mode, debug, check, stdin: stdin.to_string() });
                     }
                 }
@@ -192,7 +215,8 @@ pub fn c12(ctx: &Ctx) -> PropResult {
     let verdicts = par_map(ctx, &cases, "c12", &|d, dir, c: &CliCase| {
         let file = dir.join("main.ap");
         let mut args: Vec<String> = vec![];
-        let mut stdin_data: Option<Vec<u8>> = if c.stdin.is_empty() { None } else { Some(c.stdin.clone().into_bytes()) };
+        let closed = c.stdin == "\u{1}closed";
+        let mut stdin_data: Option<Vec<u8>> = if c.stdin.is_empty() || closed { None } else { Some(c.stdin.clone().into_bytes()) };
         match c.mode {
             "file" => {
                 std::fs::write(&file, &c.src).unwrap();
@@ -215,14 +239,17 @@ pub fn c12(ctx: &Ctx) -> PropResult {
             args.push("--check".into());
         }
         // the model's prediction first: a program it cannot finish within its budget is not run at all
-        let model_stdin = if c.mode == "stdin" { "" } else { c.stdin.as_str() };
+        let model_stdin = if c.mode == "stdin" || c.stdin == "\u{1}closed" { "" } else { c.stdin.as_str() };
         let reply = d.ask(&format!("CLI {} {} {} h{} h{}", if c.mode == "stdin" { "evalStdin" } else { c.mode }, c.debug, if c.check { 1 } else { 0 }, hex(c.src.as_bytes()), hex(model_stdin.as_bytes())));
         if reply.ends_with("fuel=1") && !c.check {
             return Verdict { tags: vec!["skipped:model-out-of-budget".into()], sample: format!("fuel | {}", c.src), nontrivial: false, failure: None };
         }
         let argrefs: Vec<&str> = args.iter().map(|s| s.as_str()).collect();
-        let r1 = run_binary(&argrefs, stdin_data.as_deref(), dir);
-        let r2 = run_binary(&argrefs, stdin_data.as_deref(), dir); // "on every run"
+        let (r1, r2) = if closed {
+            (crate::props4::run_binary_stdin_closed(&argrefs, dir), crate::props4::run_binary_stdin_closed(&argrefs, dir))
+        } else {
+            (run_binary(&argrefs, stdin_data.as_deref(), dir), run_binary(&argrefs, stdin_data.as_deref(), dir)) // "on every run"
+        };
         let f: Vec<&str> = reply.split(' ').collect();
         let case = Case::new(Kind::Run, c.src.clone()).aux(format!("mode={} debug={} check={} stdin={:?}", c.mode, c.debug, c.check, c.stdin));
         let impl_rec = format!("exit={:?} stdout={} stderr_nonempty={}", r1.code, hex(&r1.stdout), !r1.stderr.is_empty());
@@ -633,8 +660,63 @@ pub fn c13(ctx: &Ctx) -> PropResult {
     if let Some(c) = old_cwd {
         let _ = std::env::set_current_dir(c);
     }
+    // (c) the way the tool is started does not matter: absolute path, `cd dir; aplang main.ap`, `./main.ap`, a path
+    // from the parent directory - with modules beside, below and above (`..`) the importing file
+    let mut inv_verdicts = vec![];
+    if build_binary().is_ok() {
+        let layouts: Vec<(&str, Vec<(&str, &str)>)> = vec![
+            ("app/main.ap", vec![("app/main.ap", "IMPORT MOD \"../lib/util.ap\"\nDISPLAY(helper(1))\n"), ("lib/util.ap", "DISPLAY(\"util top\")\nEXPORT PROCEDURE helper(x) {\n RETURN x + 1\n}\n"), ("app/lib/util.ap", "DISPLAY(\"decoy below\")\nEXPORT PROCEDURE helper(x) {\n RETURN \"decoy\"\n}\n")]),
+            ("app/main.ap", vec![("app/main.ap", "IMPORT MOD \"sub/m.ap\"\nDISPLAY(f())\n"), ("app/sub/m.ap", "IMPORT MOD \"../sib.ap\"\nEXPORT PROCEDURE f() {\n RETURN g()\n}\n"), ("app/sib.ap", "EXPORT PROCEDURE g() {\n RETURN \"sibling\"\n}\n"), ("sib.ap", "EXPORT PROCEDURE g() {\n RETURN \"decoy above\"\n}\n")]),
+            ("main.ap", vec![("main.ap", "IMPORT MOD \"./m.ap\"\nIMPORT MOD \"d/../m2.ap\"\nDISPLAY(a() + b())\n"), ("m.ap", "EXPORT PROCEDURE a() {\n RETURN 1\n}\n"), ("m2.ap", "EXPORT PROCEDURE b() {\n RETURN 2\n}\n"), ("d/keep", "")]),
+            ("app/main.ap", vec![("app/main.ap", "IMPORT MOD \"../missing.ap\"\nDISPLAY(1)\n"), ("app/missing.ap", "DISPLAY(\"decoy\")\n")]),
+        ];
+        for (li, (main_rel, files)) in layouts.iter().enumerate() {
+            let root = scratch_dir(&format!("c13-inv-{li}"));
+            for (p, c) in files {
+                let full = root.join(p);
+                let _ = std::fs::create_dir_all(full.parent().unwrap());
+                let _ = std::fs::write(&full, c);
+            }
+            let main_abs = root.join(main_rel);
+            let main_dir = main_abs.parent().unwrap().to_path_buf();
+            let main_name = main_abs.file_name().unwrap().to_string_lossy().to_string();
+            let abs = run_binary(&[&main_abs.to_string_lossy()], None, &root);
+            let variants: Vec<(String, crate::props4::BinRun)> = vec![
+                ("cd dir; aplang main.ap".into(), run_binary(&[&main_name], None, &main_dir)),
+                ("cd dir; aplang ./main.ap".into(), run_binary(&[&format!("./{main_name}")], None, &main_dir)),
+                ("from the root: aplang <rel path>".into(), run_binary(&[main_rel], None, &root)),
+                ("from the root: aplang ./<rel path>".into(), run_binary(&[&format!("./{main_rel}")], None, &root)),
+            ];
+            let main_src = files.iter().find(|(p, _)| p == main_rel).map(|(_, c)| c.to_string()).unwrap_or_default();
+            let model_files: Vec<String> = files.iter().map(|(p, c)| format!("h{}=f{}", hex(root.join(p).to_string_lossy().as_bytes()), hex(c.as_bytes()))).collect();
+            let mut d = Driver::spawn(&ctx.driver);
+            let reply = d.ask(&format!("RUN h{} h h{} 1000000 - {}", hex(main_src.as_bytes()), hex(main_abs.to_string_lossy().as_bytes()), model_files.join(",")));
+            let mut case = Case::new(Kind::Run, main_src.clone());
+            case.path = main_abs.to_string_lossy().to_string();
+            case.files = files.iter().map(|(p, c)| (root.join(p).to_string_lossy().to_string(), Some(c.to_string()))).collect();
+            let impl_rec = format!("exit={:?} stdout={}", abs.code, hex(&abs.stdout));
+            let mut failure = None;
+            // `..` in paths is outside the file-system model (Model/Fs.lean): those layouts are decided by the
+            // invocation-independence oracle alone
+            let modelled = !files.iter().any(|(_, c)| c.contains(".."));
+            if let Some((m, _)) = imp::parse_model_run(&reply).filter(|_| modelled) {
+                let ok_model = matches!(m.end, End::Ok);
+                if String::from_utf8_lossy(&abs.stdout) != m.output || (abs.code == Some(0)) != ok_model {
+                    failure = fail("model-disagreement", case.clone(), impl_rec.clone(), reply.clone(), "the tool started with an absolute path disagrees with the model".into());
+                }
+            }
+            for (how, r) in &variants {
+                if failure.is_none() && (r.stdout != abs.stdout || r.code != abs.code) {
+                    failure = fail("impl-vs-oracle", case.clone(), format!("exit={:?} stdout={}", r.code, hex(&r.stdout)), impl_rec.clone(), format!("started as `{how}` the program behaves differently from the start with an absolute path"));
+                }
+            }
+            inv_verdicts.push(Verdict { tags: vec!["invocation-independence".into()], sample: format!("layout {li}: {main_src}"), nontrivial: true, failure });
+            let _ = std::fs::remove_dir_all(&root);
+        }
+    }
     let mut stats = stats1;
     stats.merge(collect(verdicts));
+    stats.merge(collect(inv_verdicts));
     PropResult {
         stats,
         rule: "library imports: for every module of the live registry the forms IMPORT MOD, IMPORT \"f\" FROM MOD (several names), IMPORT [f, g] FROM MOD, an unknown name, an unknown module; after each, every procedure name of the whole registry is probed without running it (a call with one argument too many: the label is the argument list iff the name is defined, the name iff it is not) and the importer's variable is displayed; user modules: generated files in the importer's directory or sub-directories with top-level output, a module variable, two exported procedures (one calling the other), a private procedure, optionally a runtime / syntax / lexical error or a nested import relative to the module's own directory; imported whole, by one name, by a list, by a private name, twice; probes for exported / private / module-variable / nested names and the importer's variables; in-process with the model given the same file tree".into(),
@@ -913,6 +995,17 @@ pub fn c18(ctx: &Ctx) -> PropResult {
     for (i, src) in crate::props2::operand_order_family().into_iter().enumerate() {
         if i % 7 == 0 {
             programs.push(("operand-order".into(), src));
+        }
+    }
+    // a user procedure with the name of a library procedure (in scope or imported later), declared twice
+    for name in ["LENGTH", "DISPLAY", "APPEND", "SIN", "TO_UPPER", "MAP", "mine"] {
+        programs.push(("redeclared-library-name".into(), format!("{all_imports}DISPLAY(\"A\")\nPROCEDURE {name}(x) {{\nRETURN 1\n}}\nPROCEDURE {name}(x) {{\nRETURN 2\n}}\nr <- {name}(0)\nDISPLAY_NOLN(\"B\")\n")));
+        programs.push(("redeclared-library-name".into(), format!("PROCEDURE {name}(x) {{\nRETURN 1\n}}\n{all_imports}r <- {name}(0)\nDISPLAY_NOLN(\"B\")\n")));
+    }
+    // FORMAT / DISPLAYF: every format shape with every list length
+    for f in ["", "plain", "{}", "{}{}", "a{}b{}c", "{", "}", "{{}}", "é{}中", "\\n{}"] {
+        for l in ["[]", "[1]", "[1, \"two\"]", "[[1], NULL, TRUE]"] {
+            programs.push(("format".into(), format!("IMPORT MOD \"IO\"\nDISPLAY(\"A\")\nDISPLAYF(\"{f}\", {l})\nDISPLAY(FORMAT(\"{f}\", {l}))\nDISPLAY(\"B\")\n")));
         }
     }
     // identifiers that resemble keywords (another casing), at the start of a statement and inside expressions
